@@ -133,6 +133,15 @@ Theorem c03_via_route_reoriented : forall (N : Num) (inst : instance N) es fwd r
   run_forward N inst None (initial_state (i_sm inst)) (es ++ rev (map et_edge rev_route)) = Ok (fwd ++ via).
 Proof. exact via_route_is_walk. Qed.
 
+
+(* ---- 7. edge-oriented queries: the origin and destination edges are reported with zero cost and unchanged state ---- *)
+(* (the composition run_edge_oriented applies to EVERY route of a result; the inner edges are an ordinary route) *)
+Theorem c03_edge_oriented_ends_zero : forall (N : Num) (inst : instance N) s t (inner : list (etrav N)) (e : etrav N) r,
+  compose_edge_oriented N inst s t (inner ++ [e]) = Ok r ->
+  r = Build_etrav s zero zero (initial_state (i_sm inst)) :: (inner ++ [e]) ++ [Build_etrav t zero zero (et_state e)]
+  /\ traversal_summary N inst r = Ok (serialize_state (i_sm inst) (et_state e)).
+Proof. exact edge_oriented_ends. Qed.
+
 (* ---- statement pins ---- *)
 Check c03_route_state_is_fold : forall (N : Num) (inst : instance N) (o : option nat) (st : list N) (l : list (etrav N)),
   (chain N (forward_traversal N inst) o st l <-> run_forward N inst o st (map et_edge l) = Ok l)
@@ -188,3 +197,4 @@ Print Assumptions c03_edge_cost_is_delta.
 Print Assumptions c03_edge_cost_c07.
 Print Assumptions c03_via_route_reoriented.
 Print Assumptions c03_nonvacuous.
+Print Assumptions c03_edge_oriented_ends_zero.
